@@ -171,16 +171,39 @@ def rule_table(ctx, res, src, impl, base):
               'table is the last alternative', '',
               'the table-driven branch is not the final else')
     loop = [l for l in src.links if l['kind'] == 'table'][0]['loop']
-    has_break = any(isinstance(n, ast.Break) for n in walk_own(loop))
+    has_break = any(isinstance(n, (ast.Break, ast.Return))
+                    for n in walk_own(loop))
     res.check(has_break, 'R-C07-table',
               'pico8.lua.lexer:Lexer._process_token',
               'first matching row wins', 'loop breaks at the first match',
               'the table loop does not stop at the first matching row')
 
 
+def _token_appends(paths):
+    """[(path, class name, args)] for self._tokens.append(TokX(...)) events"""
+    out = []
+    for p in paths:
+        for e in p.events:
+            if e[0] == 'call' and isinstance(e[1], ast.Call) and \
+                    isinstance(e[1].func, ast.Attribute) and \
+                    e[1].func.attr == 'append' and \
+                    ast.unparse(e[1].func.value) == 'self._tokens' and \
+                    e[1].args and isinstance(e[1].args[0], ast.Call):
+                c = e[1].args[0]
+                out.append((p, ast.unparse(c.func).split('.')[-1], c))
+    return out
+
+
+def _resets(p, state):
+    return any(e[0] == 'set' and e[1] == 'self.' + state and
+               isinstance(e[2], ast.Constant) and e[2].value is None
+               for e in p.events)
+
+
 def rule_multiline(ctx, res, src):
     where = 'pico8.lua.lexer:Lexer._process_token'
     mod = src.module
+    s = src.s_name
     for op in src.openers:
         cont = op.get('cont')
         loc = mod.loc(op['node'])
@@ -191,6 +214,7 @@ def rule_multiline(ctx, res, src):
                           'opener sets no state any branch continues', loc)
             continue
         state = cont['state']
+        emit_paths = None
         if op['kind'] == 'prefix' and len(op['prefixes']) == 1 and \
                 len(op['prefixes'][0]) > 1:
             pre = op['prefixes'][0]
@@ -203,18 +227,14 @@ def rule_multiline(ctx, res, src):
                       'opener {!r} / terminator {!r} / skip {} do not '
                       'agree'.format(pre, term, add), loc)
             # the opener consumes exactly its own length
-            consumed = None
-            for st in op['body']:
-                if isinstance(st, ast.Assign) and \
-                        isinstance(st.targets[0], ast.Name) and \
-                        st.targets[0].id == 'i' and \
-                        isinstance(st.value, ast.Constant):
-                    consumed = st.value.value
-            res.check(consumed == len(pre), 'R-C07-multiline', where,
+            consumed = {ast.unparse(p.ret) if p.ret is not None else None
+                        for p in op['paths']}
+            res.check(consumed == {str(len(pre))}, 'R-C07-multiline', where,
                       'block comment opener length',
-                      'consumes {} bytes'.format(consumed),
-                      'opener {!r} consumes {} bytes'.format(pre, consumed),
-                      loc)
+                      'consumes {} bytes'.format(sorted(map(str, consumed))),
+                      'opener {!r} consumes {} bytes'.format(
+                          pre, sorted(map(str, consumed))), loc)
+            emit_paths, _nf, _nd = src.found_split(cont)
         elif op['kind'] == 'regex':
             t = src.long_string_terminator(cont)
             pat = op['pattern']
@@ -240,69 +260,80 @@ def rule_multiline(ctx, res, src):
                       'terminator pattern)',
                       'captured level is not =* or the two opener patterns '
                       'differ', loc)
-            ok = t is not None and t[1] == '_in_multiline_string_delim' or (
-                t is not None and t[1].endswith('_delim'))
+            ok = t is not None and t[1].endswith('_delim')
             ok = ok and _regex_lit(t[0]) == b']' and _regex_lit(t[2]) == b']'
             res.check(ok, 'R-C07-multiline', where, 'long string terminator',
                       'closes at "]" + level + "]"',
                       'terminator pattern is not ] level ]: {}'.format(t),
                       loc)
+            emit_paths, _nf, _nd = src.found_split(cont)
         else:
-            # quoted string: the closing test compares with the opening quote
-            closes = False
-            for st in cont['body']:
-                for n in walk_own(st):
-                    if isinstance(n, ast.Compare) and len(n.ops) == 1 and \
-                            isinstance(n.ops[0], ast.Eq) and \
-                            isinstance(n.comparators[0], ast.Attribute) and \
-                            n.comparators[0].attr.endswith('_delim'):
-                        closes = True
+            # quoted string: the closing test compares the current character
+            # with the recorded opening quote; the opener records s[:1]
             sets = False
-            for st in op['body']:
-                for n in walk_own(st):
-                    if isinstance(n, ast.Assign) and \
-                            isinstance(n.targets[0], ast.Attribute) and \
-                            n.targets[0].attr.endswith('_delim') and \
-                            isinstance(n.value, ast.Subscript):
-                        sets = True
+            delim_attr = None
+            for p in op['paths']:
+                for e in p.events:
+                    if e[0] == 'set' and e[1].endswith('_delim') and \
+                            isinstance(e[2], ast.Subscript) and \
+                            isinstance(e[2].value, ast.Name) and \
+                            e[2].value.id == s and \
+                            isinstance(e[2].slice, ast.Slice):
+                        lo, hi = e[2].slice.lower, e[2].slice.upper
+                        if (lo is None or (isinstance(lo, ast.Constant) and
+                                           lo.value == 0)) and \
+                                isinstance(hi, ast.Constant) and \
+                                hi.value == 1:
+                            sets = True
+                            delim_attr = e[1]
+            closes = False
+            emit_paths = []
+            for (lp, lpaths, _env) in src.loop_paths(cont):
+                for p in lpaths:
+                    cmp_ok = any(
+                        val and isinstance(t, ast.Compare) and
+                        len(t.ops) == 1 and isinstance(t.ops[0], ast.Eq) and
+                        delim_attr is not None and
+                        delim_attr in (ast.unparse(t.left),
+                                       ast.unparse(t.comparators[0]))
+                        for (t, val) in p.conds)
+                    if cmp_ok and _token_appends([p]):
+                        closes = True
+                    if _token_appends([p]):
+                        emit_paths.append(p)
             res.check(closes and sets, 'R-C07-multiline', where,
                       'quoted string closes at its opening quote kind',
                       'delimiter recorded at the opener and compared at the '
-                      'close', 'quote kind is not recorded/compared', loc)
-        # typestate: state reset where the token is appended
-        reset = False
-        for st in cont['body']:
-            for n in walk_own(st):
-                if isinstance(n, ast.Call) and isinstance(
-                        n.func, ast.Attribute) and n.func.attr == 'append' \
-                        and '_tokens' in ast.unparse(n.func.value):
-                    blk = _enclosing_block(n)
-                    for s2 in blk:
-                        if isinstance(s2, ast.Assign) and any(
-                                isinstance(t, ast.Attribute) and
-                                t.attr == state for t in s2.targets) and \
-                                isinstance(s2.value, ast.Constant) and \
-                                s2.value.value is None:
-                            reset = True
+                      'close', 'quote kind is not recorded/compared '
+                      '(recorded={} compared={})'.format(sets, closes), loc)
+        # typestate: state reset on the path that emits the token
+        emitting = [p for (p, _c, _a) in _token_appends(emit_paths or [])]
+        reset = bool(emitting) and all(_resets(p, state) for p in emitting)
         res.check(reset, 'R-C07-multiline', where,
                   'state {} cleared on close'.format(state),
-                  'reset to None next to the token emission',
+                  'reset to None on every path that emits the token',
                   'the state is not reset when the token is emitted: the '
                   'lexer would stay inside the construct', loc)
     # unterminated states raise in process_lines
     pl = src.model.func('pico8.lua.lexer:Lexer.process_lines')
-    cfg = cfg_of(pl)
     states = [l['state'] for l in src.links if l['kind'] == 'state']
+    # the tests may be spelled out or run as a loop over a table of
+    # (state attribute, message ...) rows
+    txt = ast.unparse(pl.node)
+    cfg = cfg_of(pl)
     for stname in states:
         ok = False
         for n in cfg.nodes:
-            if n.kind == 'test' and stname in ast.unparse(n.ast) and \
+            if n.kind == 'test' and n.ast is not None and \
                     'is not None' in ast.unparse(n.ast):
                 tr = cfg.succ_by_label(n, 'true')
                 reach = cfg.reachable_from(tr, avoid={n})
                 if cfg.raise_exit in reach and cfg.exit not in reach:
-                    # and it runs after the loop over lines
-                    ok = True
+                    t = ast.unparse(n.ast)
+                    if stname in t:
+                        ok = True
+                    elif 'getattr(self' in t and repr(stname) in txt:
+                        ok = True
         res.check(ok, 'R-C07-multiline', pl.qual,
                   'unterminated {} raises'.format(stname),
                   'LexerError after the last line',
@@ -380,70 +411,196 @@ def rule_chunk(ctx, res, src, impl, base):
     raises = [n for n in cfg.nodes if isinstance(n.ast, ast.Raise)]
     guard_ok = False
     for n in cfg.nodes:
-        if n.kind == 'test' and isinstance(n.stmt, ast.If) and \
-                isinstance(n.ast, ast.Name):
-            tr = cfg.succ_by_label(n, 'true')
-            reach = cfg.reachable_from(tr, avoid={n})
-            if any(r in reach for r in raises) and cfg.exit not in reach:
-                guard_ok = True
+        if n.kind != 'test' or not isinstance(n.stmt, ast.If):
+            continue
+        t, neg = n.ast, False
+        while isinstance(t, ast.UnaryOp) and isinstance(t.op, ast.Not):
+            t, neg = t.operand, not neg
+        if not isinstance(t, ast.Name):
+            continue
+        # the branch taken when the remainder is non-empty must raise
+        br = cfg.succ_by_label(n, 'false' if neg else 'true')
+        reach = cfg.reachable_from(br, avoid={n})
+        if any(r in reach for r in raises) and cfg.exit not in reach:
+            guard_ok = True
     res.check(guard_ok, 'R-C07-chunk', pl.qual,
               'non-empty remainder raises',
               'LexerError when no row matches', 'unlexable text is dropped '
               'silently', pl.loc)
 
 
+LINE, CHAR = 'self._cur_lineno', 'self._cur_charno'
+
+
+def _spec_pos(x, line, char):
+    for b in x:
+        if b == 10:
+            line, char = line + 1, 0
+        else:
+            char += 1
+    return line, char
+
+
+def _replace_text(e, text, name):
+    from ..astutil import clone
+
+    class T(ast.NodeTransformer):
+        def generic_visit(self, n):
+            if isinstance(n, ast.expr) and ast.unparse(n) == text:
+                return ast.Name(id=name, ctx=ast.Load())
+            return super().generic_visit(n)
+    return T().visit(clone(e))
+
+
 def rule_pos(ctx, res, src):
+    """the position counters advance over exactly the consumed text, one
+    line per newline, the column restarting after the last newline"""
+    from ..absint import bytesval
     f = src.f
     where = f.qual
     s = src.s_name
-    loops = [n for n in f.node.body if isinstance(n, ast.For)]
-    cnt = None
-    for lp in loops:
-        it = lp.iter
-        if isinstance(it, ast.Subscript) and isinstance(it.value, ast.Name) \
-                and it.value.id == s and isinstance(it.slice, ast.Slice) and \
-                it.slice.lower is None and isinstance(it.slice.upper, ast.Name):
-            cnt = lp
-    if cnt is None:
-        res.violation('R-C07-pos', where, 'position counting loop',
-                      'no loop over the consumed extent s[:i] updates the '
-                      'position counters', f.loc)
-        return
-    ret = [n for n in f.node.body if isinstance(n, ast.Return)]
-    same_var = bool(ret) and isinstance(ret[-1].value, ast.Name) and \
-        ret[-1].value.id == cnt.iter.slice.upper.id
-    res.check(same_var, 'R-C07-pos', where, 'counts exactly what is consumed',
-              'loop bound is the returned consumed length',
-              'the counted extent differs from the consumed extent', f.loc)
-    ok = False
-    if len(cnt.body) == 1 and isinstance(cnt.body[0], ast.If):
-        iff = cnt.body[0]
-        t = ast.unparse(iff.test)
-        nl = ("b'\\n'[0]" in t or '== 10' in t) and isinstance(
-            iff.test, ast.Compare) and isinstance(iff.test.ops[0], ast.Eq)
-        body = [ast.unparse(x) for x in iff.body]
-        orelse = [ast.unparse(x) for x in iff.orelse]
-        line_inc = any('_cur_lineno += 1' in x for x in body)
-        char_reset = any(x.replace(' ', '') == 'self._cur_charno=0'
-                         for x in body)
-        char_inc = orelse == ['self._cur_charno += 1']
-        ok = nl and line_inc and char_reset and char_inc and len(body) == 2
-    res.check(ok, 'R-C07-pos', where, 'one counter step per byte',
-              'newline: line += 1, column = 0; otherwise column += 1',
-              'position bookkeeping changed: a byte advances zero or two '
-              'counters', f.module.loc(cnt))
-    # positions are read before the counting loop
-    cfg = cfg_of(f)
-    cnt_nodes = cfg.nodes_of(cnt)
-    after = cfg.reachable_from(cnt_nodes)
-    bad = []
-    for n in cfg.nodes:
-        if n in after and n not in cnt_nodes and n.ast is not None and \
-                n.kind not in ('iter',) and \
-                '_cur_lineno' in ast.unparse(n.ast) and n.stmt is not cnt \
-                and not any(n.ast is x for x in walk_own(cnt)):
-            bad.append(n)
-    res.check(not bad, 'R-C07-pos', where,
+    sym = src.sym
+    n_loop = n_closed = 0
+    problems = []
+    undecided = []
+    samples = [b'']
+    for k in range(1, 5):
+        samples += [bytes(t) for t in __import__('itertools').product(
+            b'a\n', repeat=k)]
+    for p in src.paths:
+        if p.end != 'return' or p.ret is None:
+            continue
+        ret_t = ast.unparse(p.ret)
+        sets = {}
+        for e in p.events:
+            if e[0] == 'set' and e[1] in (LINE, CHAR):
+                sets[e[1]] = e[2]
+        loops = [e for e in p.events if e[0] == 'loop' and any(
+            isinstance(x, ast.Attribute) and x.attr in ('_cur_lineno',
+                                                        '_cur_charno') and
+            isinstance(x.ctx, ast.Store) for x in ast.walk(e[1]))]
+        if loops:
+            lp, env = loops[-1][1], loops[-1][2]
+            if not isinstance(lp, ast.For) or len(loops) != 1 or sets:
+                undecided.append('position bookkeeping mixes a loop with '
+                                 'other updates')
+                continue
+            it = ast.unparse(sym.S(lp.iter, env))
+            if it != '{}[:{}]'.format(s, ret_t):
+                problems.append(
+                    'the counting loop runs over {} but {} is consumed: the '
+                    'counted extent differs from the consumed extent'.format(
+                        it, ret_t))
+                continue
+            if not isinstance(lp.target, ast.Name):
+                undecided.append('counting loop target')
+                continue
+            c = lp.target.id
+            trans = {}
+            for q in sym.run(lp.body, {}):
+                isnl = None
+                for (t, val) in q.conds:
+                    tt = ast.unparse(t)
+                    if tt in ('{} == 10'.format(c), '10 == {}'.format(c)):
+                        isnl = val
+                    elif tt in ('{} != 10'.format(c), '10 != {}'.format(c)):
+                        isnl = not val
+                if isnl is None:
+                    isnl = 'other'
+                st = {e[1]: ast.unparse(e[2]) for e in q.events
+                      if e[0] == 'set'}
+                trans[isnl] = (st.get(LINE, LINE), st.get(CHAR, CHAR))
+            want = {True: (LINE + ' + 1', '0'), False: (LINE, CHAR + ' + 1')}
+            if trans != want:
+                problems.append(
+                    'per-byte step is {}; expected newline: line += 1, '
+                    'column = 0; other bytes: column += 1'.format(trans))
+            n_loop += 1
+            continue
+        if not sets:
+            problems.append('a path returning {} updates no position '
+                            'counter'.format(ret_t))
+            continue
+        # closed form: compare with the per-byte specification on every
+        # string over {x, newline} up to length 4
+        L = sets.get(LINE, ast.parse(LINE, mode='eval').body)
+        C = sets.get(CHAR, ast.parse(CHAR, mode='eval').body)
+        const_len = p.ret.value if isinstance(p.ret, ast.Constant) and \
+            isinstance(p.ret.value, int) else None
+        pos_conds = []
+        for (t, val) in p.conds:
+            tt = ast.unparse(t)
+            if '.count(' in tt or 'rfind(' in tt or (
+                    const_len is None and ret_t in tt and
+                    src._classify_cond(t) is None and
+                    src._found_cond(t) is None):
+                pos_conds.append((t, val))
+        bad = None
+        try:
+            for x in samples:
+                if const_len is not None and len(x) != const_len:
+                    continue
+                env = {s: x + b'\n?\n', LINE: 3, CHAR: 7, 'RET': len(x)}
+
+                def E(e):
+                    e2 = e if const_len is not None else _replace_text(
+                        e, ret_t, 'RET')
+                    return bytesval.ev(e2, env)
+                if not all(bool(E(t)) == val for (t, val) in pos_conds):
+                    continue
+                got = (E(L), E(C))
+                want = _spec_pos(x, 3, 7)
+                if got != want and bad is None:
+                    bad = (x, got, want)
+        except AnalysisError as ex:
+            undecided.append('position update outside the model: ' + str(ex))
+            continue
+        if bad is not None:
+            problems.append(
+                'after consuming {!r} from line 3 column 7 the counters are '
+                '{} but the text ends at line {} column {}'.format(
+                    bad[0], bad[1], bad[2][0], bad[2][1]))
+        n_closed += 1
+    for u_ in sorted(set(undecided))[:3]:
+        res.undecided('R-C07-pos', where, 'position bookkeeping', u_, f.loc)
+    res.check(not problems and (n_loop + n_closed) > 0, 'R-C07-pos', where,
+              'counters advance over exactly the consumed text',
+              '{} paths count byte by byte over s[:consumed], {} use a '
+              'closed form that agrees with the per-byte rule on all strings '
+              'over {{x, newline}} up to length 4'.format(n_loop, n_closed),
+              '; '.join(sorted(set(problems))[:2]), f.loc)
+    # positions are read before the counters advance
+    late = []
+    for p in src.paths:
+        advanced = False
+        for e in p.events:
+            if e[0] == 'set' and e[1] in (LINE, CHAR):
+                advanced = True
+            elif e[0] == 'loop' and any(
+                    isinstance(x, ast.Attribute) and
+                    x.attr in ('_cur_lineno', '_cur_charno') and
+                    isinstance(x.ctx, ast.Store) for x in ast.walk(e[1])):
+                advanced = True
+            elif advanced and e[0] in ('call', 'set', 'loop'):
+                payload = e[1] if e[0] == 'loop' else e[2] if e[0] == 'set' \
+                    else e[1]
+                if any(isinstance(x, ast.Attribute) and
+                       x.attr in ('_cur_lineno', '_cur_charno')
+                       for x in ast.walk(payload)
+                       if isinstance(x, ast.AST)):
+                    late.append(e)
+            elif not advanced and e[0] in ('call', 'set'):
+                payload = e[2] if e[0] == 'set' else e[1]
+                if e[0] == 'set' and e[1] in (LINE, CHAR):
+                    continue
+                for x in ast.walk(payload):
+                    if isinstance(x, ast.Call) and \
+                            ast.unparse(x.func).split('.')[-1].startswith(
+                                'Tok') and len(x.args) >= 3:
+                        for a in x.args[1:3]:
+                            if not isinstance(a, ast.Attribute):
+                                late.append(e)
+    res.check(not late, 'R-C07-pos', where,
               'positions recorded before consumption',
               'every token / state start position is read before the '
               'counters advance', 'a position is read after the counters '
